@@ -76,6 +76,8 @@ type interpreter struct {
 	merges             int
 	summBuilding       *ssa.Function
 	curFr              *frame
+	fs                 *fsModel
+	hashes             []hashRec
 }
 
 type deferred struct {
@@ -121,7 +123,7 @@ func (fr *frame) get(key ssa.Value) value {
 // isAbort reports whether p is an engine-level abort that target code must not intercept.
 func isAbort(p interface{}) bool {
 	switch p.(type) {
-	case unsupported, engineBug, pathAbort, budgetExceeded, *runtime.TypeAssertionError:
+	case unsupported, engineBug, pathAbort, budgetExceeded, crashPanic, *runtime.TypeAssertionError:
 		return true
 	}
 	return false
@@ -189,13 +191,19 @@ func (i *interpreter) concIndex(v value, n int, what string) int64 {
 	if !ok {
 		return asInt64(v)
 	}
-	tb := i.tb
-	w := kindWidth(s.k)
-	inRange := tb.App("bvult", s.t, tb.BVConst(uint64(n), w))
-	if !i.decide(inRange) {
+	if !i.decide(i.inRange(s, n)) {
 		panic(rtError(fmt.Sprintf("%s out of range [symbolic] with length %d", what, n)))
 	}
 	return int64(i.pickValue(s.t))
+}
+
+// inRange is the condition 0 <= s < n for an index of any integer kind.
+func (i *interpreter) inRange(s sym, n int) *smt.Term {
+	w := kindWidth(s.k)
+	if w < 63 && uint64(n) >= uint64(1)<<uint(w) {
+		return i.tb.True() // every value of this width is a valid index
+	}
+	return i.tb.App("bvult", s.t, i.tb.BVConst(uint64(n), w))
 }
 
 // concInt makes an integer concrete by forking over its feasible values.
@@ -431,8 +439,11 @@ func visitInstr(fr *frame, instr ssa.Instruction) continuation {
 	case *ssa.MakeSlice:
 		c := i.concInt(fr.get(instr.Cap))
 		l := i.concInt(fr.get(instr.Len))
-		if l < 0 || c < l || c > 1<<28 {
+		if l < 0 || c < l {
 			panic(rtError("makeslice: len out of range"))
+		}
+		if c > 1<<24 {
+			panic(unsupported(fmt.Sprintf("allocation of %d elements exceeds the engine's bound", c)))
 		}
 		slice := make([]value, c)
 		tElt := instr.Type().Underlying().(*types.Slice).Elem()
@@ -478,9 +489,7 @@ func visitInstr(fr *frame, instr ssa.Instruction) continuation {
 		if s, ok := idx.(sym); ok {
 			eltT := mustDeref(instr.Type())
 			if len(base) > 0 && len(base) <= 512 && isScalarType(eltT) && onlyLoadsStores(instr) {
-				tb := i.tb
-				w := kindWidth(s.k)
-				if !i.decide(tb.App("bvult", s.t, tb.BVConst(uint64(len(base)), w))) {
+				if !i.decide(i.inRange(s, len(base))) {
 					panic(rtError(fmt.Sprintf("index out of range [symbolic] with length %d", len(base))))
 				}
 				fr.env[instr] = symElemRef{base: base, idx: s.t}
@@ -520,9 +529,7 @@ func visitInstr(fr *frame, instr ssa.Instruction) continuation {
 		}
 		if s, ok := idx.(sym); ok {
 			if len(base) > 0 && len(base) <= 512 && kindOf(base[0]) != types.Invalid {
-				tb := i.tb
-				w := kindWidth(s.k)
-				if !i.decide(tb.App("bvult", s.t, tb.BVConst(uint64(len(base)), w))) {
+				if !i.decide(i.inRange(s, len(base))) {
 					panic(rtError(fmt.Sprintf("index out of range [symbolic] with length %d", len(base))))
 				}
 				fr.env[instr] = i.loadSymElem(symElemRef{base: base, idx: s.t})
